@@ -29,12 +29,13 @@ type Case struct {
 	List       []string `json:"list"` // behaviours, in upstream order
 	MustSecure bool     `json:"must_secure"`
 	Concurrent int      `json:"concurrent"`
-	Loss       string   `json:"loss"`  // none | cut-idle | cut-mid-transfer | server-close
-	Delay      string   `json:"delay"` // 0 | 1s | 31s | 5m
+	Loss       string   `json:"loss"`              // none | cut-idle | cut-mid-transfer | server-close
+	Delay      string   `json:"delay"`             // 0 | 1s | 31s | 5m
+	Refused    int      `json:"refused,omitempty"` // local connections for a channel the server does not have, made before / between the others
 }
 
 func (c Case) String() string {
-	return fmt.Sprintf("upstreams=[%s] mustSecure=%v concurrent=%d loss=%s delay=%s", strings.Join(c.List, ","), c.MustSecure, c.Concurrent, c.Loss, c.Delay)
+	return fmt.Sprintf("upstreams=[%s] mustSecure=%v concurrent=%d loss=%s delay=%s refusedChannelRequests=%d", strings.Join(c.List, ","), c.MustSecure, c.Concurrent, c.Loss, c.Delay, c.Refused)
 }
 
 // scripted is an upstream whose peer misbehaves.
@@ -154,6 +155,13 @@ func execute(t *testing.T, c Case) (kind, detail string) {
 			}
 		}
 		var apps []*world.Endpoint
+		for i := 0; i < c.Refused; i++ {
+			// a request for a channel the server refuses must not cost the physical session
+			ra := host.OpenAppVia(ups, "no-such-channel", nil)
+			bubble.Wait()
+			bubble.Advance(time.Second)
+			ra.Close()
+		}
 		for i := 0; i < c.Concurrent; i++ {
 			apps = append(apps, host.OpenAppVia(ups, "x", nil))
 		}
@@ -306,6 +314,13 @@ func cases(thorough bool) []Case {
 					continue
 				}
 				out = append(out, Case{List: l, MustSecure: ms, Concurrent: conc, Loss: "none"})
+			}
+		}
+	}
+	for _, l := range [][]string{{"ok"}, {"refuses", "ok"}, {"insecure"}, {"ok", "ok"}} {
+		for _, ref := range []int{1, 3} {
+			for _, conc := range []int{1, 2} {
+				out = append(out, Case{List: l, MustSecure: false, Concurrent: conc, Loss: "none", Refused: ref})
 			}
 		}
 	}
